@@ -1,2 +1,2 @@
-import NipyVerif.Model.C05
-def main : IO Unit := NipyVerif.driverLoop NipyVerif.C05.run
+import NipyVerif.Model.C05D
+def main : IO Unit := NipyVerif.driverLoop NipyVerif.C05.runAll
